@@ -23,6 +23,7 @@ import (
 	"fmt"
 	"github.com/nuts-foundation/go-did"
 	"github.com/nuts-foundation/go-did/did"
+	"net/url"
 	"strings"
 )
 
@@ -121,7 +122,7 @@ func MakeServiceReference(subjectDID did.DID, serviceType string) ssi.URI {
 	ref := subjectDID.URI()
 	ref.Opaque += serviceEndpointPath
 	ref.Fragment = ""
-	ref.RawQuery = fmt.Sprintf("%s=%s", serviceTypeQueryParameter, serviceType)
+	ref.RawQuery = fmt.Sprintf("%s=%s", serviceTypeQueryParameter, url.QueryEscape(serviceType))
 	return ref
 }
 
